@@ -30,10 +30,10 @@ Stutter == UNCHANGED <<cfg, phase, calls, byId, hi, gaps, cw, nSR, sw, nCR, cin,
                        hnds, hOf, flt, creg, sreg, base, pend, live, cregN, parked>>
 
 \* every action leaves `now` to the trace: it is the time stamp of the line just consumed
-Timed(A) == A /\ now' = E.t
+Timed(A) == now' = E.t /\ A
 
 TBegin == Is("Begin") /\ Reset
-TBase == Is("Base") /\ base' = E.n /\ now' = E.t
+TBase == Is("Base") /\ now' = E.t /\ base' = E.n
          /\ UNCHANGED <<cfg, phase, calls, byId, hi, gaps, cw, nSR, sw, nCR, cin, sin, preq,
                         hnds, hOf, flt, creg, sreg, pend, live, cregN, parked>>
 TUnwind == Is("Unwind") /\ phase = "run" /\ phase' = "unwind" /\ now' = E.t
@@ -72,7 +72,7 @@ THSendHdr == Is("HSendHdr") /\ IF E.h \in DOMAIN hnds /\ hnds[E.h].kind = "unary
 THSendHdrRet == Is("HSendHdrRet") /\ Timed(HSendHdrRet(E.h, E.res))
 THSetTrl == Is("HSetTrl") /\ Timed(HSetTrl(E.h, MdF(E.md)))
 THRet == Is("HRet") /\ Timed(HRet(E.h, E.code, E.msg, E.n, E.pay))
-THCtxDone == Is("HCtxDone") /\ now' = E.t /\ HCtxDone(E.h)
+THCtxDone == Is("HCtxDone") /\ Timed(HCtxDone(E.h))
 
 TURet == Is("URet") /\ Timed(URet(E.c, E.res, E.code, E.msg, E.n, E.pay))
 TSOpenRet == Is("SOpenRet") /\ Timed(SOpenRet(E.c, E.res))
@@ -84,9 +84,10 @@ TSRecv == Is("SRecv") /\ E.c \in DOMAIN calls /\ now' = E.t /\ Stutter
 TSRecvRet == Is("SRecvRet") /\ Timed(SRecvRet(E.c, E.res, E.code, E.msg, E.n, E.pay, E.k = "plain"))
 TSHdr == Is("SHdr") /\ E.c \in DOMAIN calls /\ now' = E.t /\ Stutter
 TSHdrRet == Is("SHdrRet") /\ Timed(SHdrRet(E.c, E.res, MdF(E.md), E.k = "nil"))
-TSTrl == Is("STrl") /\ now' = E.t /\ STrl(E.c, MdF(E.md), E.k = "nil")
+TSTrl == Is("STrl") /\ Timed(STrl(E.c, MdF(E.md), E.k = "nil"))
 
 TFault == Is("Fault") /\ Timed(Fault(E.k))
+TUnfault == Is("Unfault") /\ Timed(Unfault(E.k))
 TWFail == Is("WFail") /\ Timed(Fault(IF E.k = "SW" THEN "swfail" ELSE "cwfail"))
 TServeRet == Is("ServeRet") /\ Timed(ServeRet)
 
@@ -112,7 +113,7 @@ TraceNext ==
   \/ THSetTrl \/ THRet \/ THCtxDone
   \/ TURet \/ TSOpenRet \/ TSSend \/ TSSendRet \/ TSClose \/ TSCloseRet \/ TSRecv \/ TSRecvRet
   \/ TSHdr \/ TSHdrRet \/ TSTrl
-  \/ TFault \/ TWFail \/ TServeRet \/ THk \/ TPend \/ THLive \/ TCReg \/ TQuiesce
+  \/ TFault \/ TUnfault \/ TWFail \/ TServeRet \/ THk \/ TPend \/ THLive \/ TCReg \/ TQuiesce
 
 \* A line that no action explains is reported and the rest of its scenario is
 \* skipped, so that the remaining scenarios of the batch are still checked.
